@@ -524,5 +524,4 @@ func modeFault(thorough bool) {
 		}
 	}
 	wg.Wait()
-	onlyEvents = nil
 }
